@@ -89,12 +89,30 @@ def child_list(cx, owner: SObj, base: str, n: SInt) -> SList:
 
 @register
 class GeneticBase_get_hash(Contract):
-    """memo key = hash((root, tree, scope items, locals items)); verified against its body in contracts/memo.py"""
+    """memo key: a function of the tree (and its root), of the scope content and of the locals content -- key
+    completeness (C11 ii).  Verified against the body: the result must be the hash of a tuple that contains all four
+    components."""
     target = "constraints/base.py:GeneticBase.get_hash"
-    trusted = True
+    properties = ("C11",)
+    float_mode = "real"
+    cases = tuple((s, l) for s in ("none", "dict") for l in ("none", "dict"))
+
+    def inputs(self, cx, case):
+        return generic_args(cx, case)
 
     def fresh_result(self, cx, a):
         return SInt(KeyOf(a["tree"].ident, dict_id(a["scope"]), dict_id(a["local_variables"])))
+
+    def ensures(self, cx, a, r):
+        from pyvc.builtins import _hash_fns
+        from contracts.evaluation import Tree_get_root
+        if cx.tag != self.target:
+            return []      # at call sites the result is the term KeyOf(...) itself
+        hp, H = _hash_fns()
+        tup = z3.Function("tuple_of", I, I)
+        t = a["tree"].ident
+        want = H(hp(Tree_get_root.RootOf(t), hp(t, hp(tup(dict_id(a["scope"])), hp(tup(dict_id(a["local_variables"])), z3.IntVal(-1))))))
+        return [("key_covers_root_tree_scope_locals", to_term_int(r) == want)]
 
 
 def generic_args(cx, case):
